@@ -1,5 +1,5 @@
 """C16 - TCP acknowledgements are cumulative and correct; all data gets through"""
-from . import tcp as T, netdev as N, elements
+from . import tcp as T, netdev as N, elements, deps
 
 def check(ctx):
     T.run_tables(ctx, 'C16', [('TCPSink', '__init__'), ('TCPSink', 'packet_arrived'), ('TCPSink', 'put'),
@@ -17,6 +17,7 @@ def check(ctx):
     elements.ack_offset_constant(ctx, 'C16')
     elements.timer_args_shape(ctx, 'C16')
     elements.network_keys_guarded(ctx, 'C16')
+    deps.element_layers(ctx, 'C16')
     return ('Static: TCPSink.packet_arrived/put (ACK = end of the first merged range iff it starts at 0, else 0; no data '
             'dependence on the arriving segment), the sender\'s run/put/timeout_callback/resend_packet and the Timer '
             'compared with reference tables; the retransmission chain exists and is callable (timer armed per segment, '
